@@ -129,7 +129,7 @@ package bug
 //@   ensures [comments] len(snapshot.Comments) == n + 1 && (forall k int :: { snapshot.Comments[k] } 0 <= k && k < n ==> snapshot.Comments[k] == old(snapshot.Comments[k]))
 //@   ensures [comment]  snapshot.Comments[n].Message == op.Message && snapshot.Comments[n].Files == op.Files && snapshot.Comments[n].Author == op.Author() && snapshot.Comments[n].targetId == op.Id() && snapshot.Comments[n].combinedId == entity.CombineIds(snapshot.id, op.Id())
 //@   ensures [timeline] len(snapshot.Timeline) == m + 1 && (forall k int :: { snapshot.Timeline[k] } 0 <= k && k < m ==> snapshot.Timeline[k] == old(snapshot.Timeline[k])) && typeof(snapshot.Timeline[m]) == type[*AddCommentTimelineItem]
-//@   ensures [item]     snapshot.Timeline[m].(*AddCommentTimelineItem).CommentTimelineItem.Message == op.Message && snapshot.Timeline[m].(*AddCommentTimelineItem).CommentTimelineItem.combinedId == entity.CombineIds(snapshot.id, op.Id())
+//@   ensures [item]     snapshot.Timeline[m].(*AddCommentTimelineItem).CommentTimelineItem.Message == op.Message && snapshot.Timeline[m].(*AddCommentTimelineItem).CommentTimelineItem.Files == op.Files && snapshot.Timeline[m].(*AddCommentTimelineItem).CommentTimelineItem.combinedId == entity.CombineIds(snapshot.id, op.Id())
 //@   ensures [actor]       exists k int :: { snapshot.Actors[k] } 0 <= k && k < len(snapshot.Actors) && snapshot.Actors[k].Id() == op.Author().Id()
 //@   ensures [participant] exists k int :: { snapshot.Participants[k] } 0 <= k && k < len(snapshot.Participants) && snapshot.Participants[k].Id() == op.Author().Id()
 
@@ -148,7 +148,7 @@ package bug
 //@   ensures [id-title-author] !foreign ==> snapshot.id == op.Id() && snapshot.Title == op.Title && snapshot.Author == op.Author()
 //@   ensures [one-comment]     !foreign ==> len(snapshot.Comments) == 1 && snapshot.Comments[0].Message == op.Message && snapshot.Comments[0].Author == op.Author() && snapshot.Comments[0].targetId == op.Id() && snapshot.Comments[0].combinedId == entity.CombineIds(op.Id(), op.Id())
 //@   ensures [first-comment-carries-the-files] !foreign ==> len(snapshot.Comments) == 1 && snapshot.Comments[0].Files == op.Files
-//@   ensures [one-item]        !foreign ==> len(snapshot.Timeline) == 1 && typeof(snapshot.Timeline[0]) == type[*CreateTimelineItem] && snapshot.Timeline[0].(*CreateTimelineItem).CommentTimelineItem.Message == op.Message
+//@   ensures [one-item]        !foreign ==> len(snapshot.Timeline) == 1 && typeof(snapshot.Timeline[0]) == type[*CreateTimelineItem] && snapshot.Timeline[0].(*CreateTimelineItem).CommentTimelineItem.Message == op.Message && snapshot.Timeline[0].(*CreateTimelineItem).CommentTimelineItem.Files == op.Files
 //@   ensures [actor]           !foreign ==> exists k int :: { snapshot.Actors[k] } 0 <= k && k < len(snapshot.Actors) && snapshot.Actors[k].Id() == op.Author().Id()
 //@   ensures [participant]     !foreign ==> exists k int :: { snapshot.Participants[k] } 0 <= k && k < len(snapshot.Participants) && snapshot.Participants[k].Id() == op.Author().Id()
 
